@@ -320,7 +320,8 @@ func modeCtor(args []string) {
 				if ok {
 					s, e := back.String()
 					y, e2 := strconv.ParseFloat(s, 64)
-					ok = e == nil && e2 == nil && (y == x) && !strings.ContainsAny(s, "\r\n")
+					// the Go value it was built from: the same float64, sign of zero included
+					ok = e == nil && e2 == nil && math.Float64bits(y) == math.Float64bits(x) && !strings.ContainsAny(s, "\r\n")
 				}
 				res = fmt.Sprintf("%s %v", hx(b), ok)
 			case "str":
